@@ -89,6 +89,20 @@ fn check_missing_bounds(m: &Model, c: &mut Case) {
         }
         if variables.is_empty() { c.tags.push("missing-bounds-none-identified".into()); }
     }
+    // … and must name EVERY source variable of the offending expression whose derived range is not finite
+    // (`Props.C08.missing_bounds_payload_spec` / `missing_bounds_error_global`: the payload is exactly that set, sorted)
+    if let Err(LinearizationError::MissingFiniteBounds { expression, variables, .. }) = Linearizer::linearize(m.clone()) {
+        let rep = rooc::verif_hooks::linearizer_bounds(m.domain(), m.constraints());
+        let mut occ = vec![];
+        exp_vars(&expression, &mut occ);
+        for v in occ {
+            if let Some((_, lo, hi)) = rep.variables.iter().find(|(n, _, _)| *n == v) {
+                if (!lo.is_finite() || !hi.is_finite()) && !variables.contains(&v) && c.impl_violation.is_none() {
+                    c.impl_violation = Some(format!("MissingFiniteBounds for {} does not name {} whose derived range is [{}, {}] (names: {:?})", expression, v, lo, hi, variables));
+                }
+            }
+        }
+    }
 }
 
 /// coverage boost for the reified logic auxiliaries (`$iff_k`, `$implies_k`, `$xor_k`, `$and_k`, `$or_k`) and the
@@ -207,6 +221,131 @@ fn overflow_case(r: &mut Rng) -> Case {
     c
 }
 
+fn exp_vars(e: &Exp, out: &mut Vec<String>) {
+    match e {
+        Exp::Number(_) => {}
+        Exp::Variable(n) => out.push(n.clone()),
+        Exp::Abs(x) | Exp::Not(x) | Exp::UnOp(_, x) => exp_vars(x, out),
+        Exp::Min(es) | Exp::Max(es) | Exp::And(es) | Exp::Or(es) => es.iter().for_each(|x| exp_vars(x, out)),
+        Exp::Xor(x, y) | Exp::Implies(x, y) | Exp::Iff(x, y) | Exp::BinOp(_, x, y) => { exp_vars(x, out); exp_vars(y, out); }
+    }
+}
+
+/// the variable-list contract, checked directly on the implementation's output (the exact oracle checks the same
+/// clauses through `WF.report`; this is the second, independent opinion): `variables()` strictly ascending in the
+/// byte order of `String`, equal to `domain().keys()` as a set, and every variable that occurs in the source has a
+/// column AND a domain entry.
+fn check_variable_list(m: &Model, c: &mut Case) {
+    let lm = match Linearizer::linearize(m.clone()) { Ok(lm) => lm, Err(_) => return };
+    let vars = lm.variables();
+    if !vars.windows(2).all(|w| w[0].as_bytes() < w[1].as_bytes()) {
+        c.impl_violation = Some(format!("variables() is not strictly ascending: {:?}", vars));
+        return;
+    }
+    let keys: std::collections::BTreeSet<&String> = lm.domain().keys().collect();
+    let vset: std::collections::BTreeSet<&String> = vars.iter().collect();
+    if keys != vset {
+        c.impl_violation = Some(format!("variables() {:?} and domain().keys() {:?} differ as sets", vars, keys));
+        return;
+    }
+    let mut occ = vec![];
+    exp_vars(&m.objective().rhs, &mut occ);
+    for k in m.constraints() { exp_vars(k.lhs(), &mut occ); if !k.is_logic_assertion() { exp_vars(k.rhs(), &mut occ); } }
+    for v in occ {
+        if vars.binary_search(&v).is_err() || !lm.domain().contains_key(&v) {
+            c.impl_violation = Some(format!("the source variable {} has no column / domain entry in the compiled model ({:?})", v, vars));
+            return;
+        }
+    }
+}
+
+/// names that differ only in letter case, names whose ASCII order differs from the case-insensitive / natural
+/// order (`a B c D`, `x10 x2`), non-ASCII names: the column of a coefficient is found by a search in the SORTED
+/// variable list, so a second notion of order anywhere in the compiler loses or misplaces coefficients.
+fn name_order_case(r: &mut Rng, tag: &str, cfg: &ModelCfg) -> Case {
+    let pool = ["a", "B", "c", "D", "A", "b", "C", "d", "Z", "z", "_x", "x1", "x10", "x2", "X2", "ab", "aB", "Ab", "AB", "a_", "é", "É", "e", "zz", "Zz", "ß", "ss", "ä", "ae"];
+    let base = gen_model::decls(r, cfg);
+    let n = (2 + r.below(4)).max(base.len());
+    let mut ds: Vec<VarDecl> = vec![];
+    for i in 0..n {
+        let name = loop { let c = r.pick(&pool).to_string(); if !ds.iter().any(|d| d.name == c) { break c; } };
+        let ty = if i < base.len() { base[i].ty } else { VariableType::Real(-2.0, 3.0) };
+        ds.push(VarDecl { name, ty });
+    }
+    let (m, _) = gen_model::model_with(r, cfg, ds);
+    let mut c = crate::props::c01::one(&m, "name-order", "c08");
+    c.tags.push(format!("name-order:{}", tag));
+    let names: Vec<&String> = m.domain().keys().collect();
+    if names.iter().any(|a| names.iter().any(|b| a != b && a.to_lowercase() == b.to_lowercase())) { c.tags.push("names-differ-in-case-only".into()); }
+    let mut byte = names.clone(); byte.sort();
+    let mut ci = names.clone(); ci.sort_by_key(|s| s.to_lowercase());
+    if byte != ci { c.tags.push("byte-order-ne-caseless-order".into()); }
+    if names.iter().any(|s| !s.is_ascii()) { c.tags.push("non-ascii-name".into()); }
+    check_variable_list(&m, &mut c);
+    c
+}
+
+/// `impl Display for LinearizationError` against the ported templates (`Lin.LinErr.text`): the message of the error
+/// the implementation returns for `m`, with the texts of the payloads the model does not carry (expression,
+/// requirement, derived bounds) passed along. Also the contract of the `variables` payload on the implementation:
+/// strictly ascending, every name occurs in the offending expression.
+fn display_case(m: &Model) -> Option<Case> {
+    let e = match std::panic::catch_unwind(std::panic::AssertUnwindSafe(|| Linearizer::linearize(m.clone()))) { Ok(Err(e)) => e, _ => return None };
+    let (expr, req, lo, hi) = match &e {
+        LinearizationError::NonLinearExpression(x) | LinearizationError::DivisionByZero(x)
+        | LinearizationError::UnimplementedExpression(x) | LinearizationError::NonBinaryLogicOperand(x) => (x.to_string(), String::new(), String::new(), String::new()),
+        LinearizationError::MissingFiniteBounds { expression, requirement, lower, upper, .. } => (expression.to_string(), requirement.to_string(), lower.to_string(), upper.to_string()),
+        _ => (String::new(), String::new(), String::new(), String::new()),
+    };
+    let mut c = Case::default();
+    let esx = crate::props::c01::lin_error(&e);
+    c.req = format!("linerr-display {} {} {} {} {}", esx, sx::q(&expr), sx::q(&req), sx::q(&lo), sx::q(&hi));
+    c.imp = sx::q(&e.to_string());
+    c.show = format!("{}", m).replace('\n', " ; ");
+    c.tags = vec!["error-display".into(), format!("display:{}", esx.split(|ch| ch == ' ' || ch == ')').nth(1).unwrap_or(""))];
+    if let LinearizationError::MissingFiniteBounds { expression, variables, .. } = &e {
+        c.tags.push(if variables.is_empty() { "display:none-identified".into() } else { format!("display:named-{}", variables.len().min(3)) });
+        if !variables.windows(2).all(|w| w[0] < w[1]) {
+            c.impl_violation = Some(format!("MissingFiniteBounds.variables is not strictly ascending: {:?}", variables));
+        }
+        let mut occ = vec![];
+        exp_vars(expression, &mut occ);
+        if let Some(v) = variables.iter().find(|v| !occ.contains(v)) {
+            c.impl_violation = Some(format!("MissingFiniteBounds names {} which does not occur in the offending expression {}", v, expression));
+        }
+    }
+    Some(c)
+}
+
+/// one model per message shape that the random streams reach rarely.
+fn display_targeted(r: &mut Rng) -> Model {
+    let v = |n: &str| Exp::Variable(n.into());
+    let k = |x: f64| Exp::Number(x);
+    let bin = |op: BinOp, a: Exp, b: Exp| Exp::BinOp(op, Box::new(a), Box::new(b));
+    let free = VariableType::Real(f64::NEG_INFINITY, f64::INFINITY);
+    let boxed = VariableType::Real(-2.0, 3.0);
+    let names = ["x", "y", "z", "B", "a"];
+    let (lhs, tys): (Exp, Vec<VariableType>) = match r.below(7) {
+        // a binary logic operator / a `not` written as an operator node: `simplify` rewrites them into the n-ary nodes,
+        // so the UnimplementedExpression branches of Exp::linearize are not reachable from Linearizer::linearize
+        5 => (bin(*r.pick(&[BinOp::And, BinOp::Or, BinOp::Xor, BinOp::Implies, BinOp::Iff]), v("a"), v("a")), vec![boxed, boxed, boxed, boxed, VariableType::Boolean]),
+        6 => (bin(BinOp::Add, Exp::UnOp(rooc::UnOp::Not, Box::new(v("a"))), v("x")), vec![boxed, boxed, boxed, boxed, VariableType::Boolean]),
+        // two or three unbounded variables under an absolute value that needs its exact value
+        0 => (Exp::Abs(Box::new(bin(BinOp::Add, v("x"), v("y")))), vec![free, free, boxed, boxed, VariableType::Boolean]),
+        1 => (Exp::Abs(Box::new(bin(BinOp::Sub, bin(BinOp::Add, v("z"), v("B")), v("x")))), vec![free, boxed, free, VariableType::NonNegativeReal(0.0, f64::INFINITY), VariableType::Boolean]),
+        // an unbounded derived range that no single variable explains
+        2 => (Exp::Abs(Box::new(bin(BinOp::Mul, v("x"), v("y")))), vec![boxed, boxed, boxed, boxed, VariableType::Boolean]),
+        // a logic operator over a real variable, in value position
+        3 => (bin(BinOp::Add, Exp::And(vec![v("a"), v("y")]), v("x")), vec![boxed, boxed, boxed, boxed, VariableType::Boolean]),
+        // a user variable with the name of the first auxiliary
+        _ => (bin(BinOp::Add, Exp::Abs(Box::new(v("x"))), v("$abs_0")), vec![boxed, boxed, boxed, boxed, VariableType::Boolean]),
+    };
+    let mut ds: Vec<VarDecl> = names.iter().zip(tys).map(|(n, ty)| VarDecl { name: n.to_string(), ty }).collect();
+    ds.push(VarDecl { name: "$abs_0".into(), ty: VariableType::NonNegativeReal(0.0, 3.0) });
+    let cmp = *r.pick(&[Comparison::GreaterOrEqual, Comparison::Equal]);
+    gen_model::build(OptimizationType::Min, v("x"), vec![Constraint::new(lhs, cmp, k(1.0 + r.below(3) as f64), String::new())], &ds)
+}
+
 pub fn generate(seed: u64, n: usize, thorough: bool, corpus: Option<&str>) -> Vec<Case> {
     let mut out = crate::props::c01::generate_for("c08", seed.wrapping_add(2000), n, thorough, corpus);
     let mut r = Rng::new(seed ^ 0xC08).fork();
@@ -218,6 +357,20 @@ pub fn generate(seed: u64, n: usize, thorough: bool, corpus: Option<&str>) -> Ve
         let mut c = crate::props::c01::one(&m, "missing-bounds", "c08");
         check_missing_bounds(&m, &mut c);
         out.push(c);
+        if let Some(d) = display_case(&m) { out.push(d); }
+    }
+    // the messages of the other error kinds: the hostile configuration produces all of them
+    let hostile = ModelCfg { max_vars: 4, depth: 3, logic: true, piecewise: true, unbounded: true, fractional: false, strict_cmp: true, hostile: true };
+    for _ in 0..(n / 5).max(60) {
+        let (m, _) = gen_model::model(&mut r, &hostile);
+        if let Some(d) = display_case(&m) { out.push(d); }
+    }
+    for _ in 0..(n / 10).max(80) {
+        let m = display_targeted(&mut r);
+        let mut c = crate::props::c01::one(&m, "targeted-error", "c08");
+        check_missing_bounds(&m, &mut c);
+        out.push(c);
+        if let Some(d) = display_case(&m) { out.push(d); }
     }
     for _ in 0..(n / 10).max(30) { out.push(logic_aux_case(&mut r)); }
     let cfgs = crate::props::c01::configs();
@@ -226,6 +379,10 @@ pub fn generate(seed: u64, n: usize, thorough: bool, corpus: Option<&str>) -> Ve
         out.push(permutation_case(&mut r, tag, cfg));
     }
     for _ in 0..(n / 20).max(20) { out.push(overflow_case(&mut r)); }
+    for i in 0..(n / 5).max(60) {
+        let (tag, cfg) = &cfgs[i % cfgs.len()];
+        out.push(name_order_case(&mut r, tag, cfg));
+    }
     let _ = sx::num;
     out
 }
